@@ -29,6 +29,7 @@ import (
 	"github.com/database64128/shadowsocks-go/netio"
 
 	"verifsim/props/core"
+	"verifsim/props/util"
 	"verifsim/sim/simrt"
 )
 
@@ -286,7 +287,8 @@ func (st *state) exec(t *task, op sop) {
 		c.k, c.err = int64(k), err
 		st.finish(c)
 	case opRead:
-		buf := make([]byte, op.n)
+		rb := util.NewReadBuf(s, op.n)
+		buf := rb.B
 		for i := range buf {
 			buf[i] = poison
 		}
@@ -298,6 +300,10 @@ func (st *state) exec(t *task, op sop) {
 		k, err := conn.Read(buf)
 		c.k, c.err = int64(k), err
 		st.finish(c)
+		if msg := rb.Check(k); msg != "" {
+			s.Fail("c15.buffer-overrun", "%s (end %d): %s", t.name, t.end, msg)
+			return
+		}
 		if k > 0 && k <= len(buf) {
 			c.chunks = append(c.chunks, &chunk{c: c, data: buf[:k], ss: c.ss, se: c.se})
 		}
@@ -414,6 +420,29 @@ func (st *state) timeoutCause(c *call) *call {
 	return nil
 }
 
+// effect says whether set call x (which has returned) changed the read (or write) deadline of its
+// end: 1 yes, 0 no, -1 unknown. SetDeadline sets both halves and reports the error of either, so
+// an error only tells that one half was closed: the half whose direction no call had begun to
+// close by the time SetDeadline returned was certainly set.
+func (st *state) effect(x *call, read bool) int {
+	if x.err == nil {
+		return 1
+	}
+	if x.kind != opSetD {
+		return 0
+	}
+	d := x.end
+	if read {
+		d = 1 - x.end
+	}
+	for _, c := range st.closers(d, true, true) {
+		if c.ss < x.se {
+			return -1
+		}
+	}
+	return 1
+}
+
 // expiredForSure reports whether, now that every setter has returned, the deadline is certainly
 // set to an instant that has passed.
 func (st *state) expiredForSure(end int, read bool) (bool, *call) {
@@ -424,18 +453,30 @@ func (st *state) expiredForSure(end int, read bool) (bool, *call) {
 		if x.pending() {
 			return false, nil
 		}
+	}
+	for _, x := range sets {
 		final := true
 		for _, y := range sets {
-			if y != x && y.err == nil && y.ss > x.se {
-				final = false
-				break
+			if y != x && y.ss > x.se {
+				switch st.effect(y, read) {
+				case 1:
+					final = false
+				case -1:
+					return false, nil
+				}
 			}
 		}
 		if !final {
 			continue
 		}
+		switch st.effect(x, read) {
+		case 0:
+			continue
+		case -1:
+			return false, nil
+		}
 		n++
-		if x.err != nil || x.dl.IsZero() || x.dl.After(time.Now()) {
+		if x.dl.IsZero() || x.dl.After(time.Now()) {
 			return false, nil
 		}
 		last = x
